@@ -16,7 +16,7 @@ RULE = ('one run = one or two independent HeapDict(k), k in {0,1,2,3,5,8,13}, 1-
         'clients (keys of the three documented types incl. 1 / 1.0 collisions; '
         'item families int, float, tuple, str, and objects sortable only via '
         '__lt__) whose pushes are interleaved by the seeded schedule with '
-        'reads and reads-that-vandalise-the-returned-copy; every read is '
+        'reads, reads-that-vandalise-the-returned-copy and reads cancelled inside an item comparison; every read is '
         'compared with a sorted-multiset model. Non-trivial: >= 2 pushes, >= 1 '
         'compared read and >= 1 push landing on a non-empty queue. Distinct: '
         'by (k, sequence of (op, client, position of the pushed item relative '
@@ -32,15 +32,25 @@ MUTATIONS = ('clear_dict', 'clear_lists', 'pop_first', 'pop_last',
              'append_junk', 'reverse_lists', 'del_key', 'sort_lists')
 
 
+class InjectedInterrupt(KeyboardInterrupt):
+  """The user's "stop" arriving inside an item comparison."""
+
+
 class Item:
   """Sortable only through __lt__ on score, like TBRMMDesign."""
   __slots__ = ('score', 'uid')
+  countdown = None      # comparisons left before an injected interrupt
 
   def __init__(self, score, uid):
     self.score = score
     self.uid = uid
 
   def __lt__(self, other):
+    if Item.countdown is not None:
+      Item.countdown -= 1
+      if Item.countdown <= 0:
+        Item.countdown = None
+        raise InjectedInterrupt()
     return self.score < other.score
 
   def __repr__(self):
@@ -126,6 +136,7 @@ def generate(rng, tier, profile='default'):
       if cl['h'] == 0 and cl['shape'] in ('constant', 'ties'):
         cl['shape'] = 'random'
   p_mut = rng.choice((0.0, 0.3, 0.6))
+  p_intr = rng.choice((0.0, 0.0, 0.15, 0.3))
   ops = []
   sent = [0] * n_clients
   uid = 0
@@ -133,7 +144,10 @@ def generate(rng, tier, profile='default'):
     r = rng.random()
     if r < p_read:
       h = rng.randrange(len(ks))
-      if rng.random() < p_mut:
+      if rng.random() < p_intr:
+        ops.append({'op': 'read_interrupted', 'h': h,
+                    'at': rng.choice((1, 1, 2, 3, 4, 6, 9, 15, 30))})
+      elif rng.random() < p_mut:
         ops.append({'op': 'read_mutate', 'h': h,
                     'how': rng.choice(MUTATIONS)})
       else:
@@ -332,6 +346,27 @@ def execute(desc):
     else:
       hi = op.get('h', 0)
       h, model, k = heaps[hi], models[hi], ks[hi]
+      if kind == 'read_interrupted':
+        # a read cancelled inside an item comparison: its answer is lost, but
+        # "reading it does not change it" -- later answers must be unaffected
+        Item.countdown = op['at']
+        try:
+          h.get_result()
+          interrupted = False
+        except InjectedInterrupt:
+          interrupted = True
+        except Exception as e:  # pylint: disable=broad-except
+          viol = core.violation(PROPERTY, 'H3', step, kind,
+                                'get_result raised %s' % type(e).__name__)
+          break
+        finally:
+          Item.countdown = None
+        if interrupted:
+          stats['faults']['read_interrupted_in_comparison'] = (
+              stats['faults'].get('read_interrupted_in_comparison', 0) + 1)
+        absig.append(('read_interrupted', interrupted))
+        events.append([step, kind, hi, interrupted])
+        continue
       try:
         res = h.get_result()
       except Exception as e:  # pylint: disable=broad-except
